@@ -438,7 +438,9 @@ type progGen struct {
 	rels     []int
 }
 
-var progAtoms = []*ast.SExpr{ast.NewSymbol("a"), ast.NewSymbol("b"), sym5, sym6, ast.NewInt(1), ast.NewSymbol("s"), ast.NewSymbol("1"), ast.NewString("a")}
+var progAtoms = []*ast.SExpr{ast.NewSymbol("a"), ast.NewSymbol("b"), sym5, sym6, ast.NewInt(1), ast.NewSymbol("s"), ast.NewSymbol("1"), ast.NewString("a"),
+	// numbers on which a careless comparison goes wrong: a float equal in print to an int, a NaN (one shared atom), integers one apart beyond 2^53
+	ast.NewFloat(1), nanAtom, ast.NewFloat(0.5), ast.NewInt(1 << 53), ast.NewInt(1<<53 + 1)}
 
 func (pg *progGen) term(depth, nenv int) *PT {
 	r := pg.r
